@@ -100,10 +100,26 @@ pub fn hex<'a>() -> impl chumsky::Parser<'a, &'a str, usize, Err<'a>> + Clone {
             text::digits(16)
                 .at_least(1)
                 .to_slice()
-                .map(|s: &str| usize::from_str_radix(s, 16).unwrap()),
+                .try_map(|s: &str, span| {
+                    usize::from_str_radix(s, 16).map_err(|e| {
+                        Rich::custom(span, format!("invalid hexadecimal number `{s}`: {e}"))
+                    })
+                }),
         )
         .padded()
         .labelled("hexidecimal number")
+}
+
+/// Decimal number that fits into `T`. An out-of-range numeral is a parse error, not a panic.
+pub fn int10<'a, T>() -> impl chumsky::Parser<'a, &'a str, T, Err<'a>> + Clone
+where
+    T: std::str::FromStr,
+    T::Err: std::fmt::Display,
+{
+    text::int(10).try_map(|s: &str, span| {
+        s.parse::<T>()
+            .map_err(|e| Rich::custom(span, format!("invalid number `{s}`: {e}")))
+    })
 }
 
 pub fn rust_identifier<'a>() -> impl chumsky::Parser<'a, &'a str, &'a str, Err<'a>> + Clone {
@@ -128,15 +144,13 @@ pub fn brkpt_at_line_parser<'a>() -> impl chumsky::Parser<'a, &'a str, Breakpoin
         .repeated()
         .to_slice()
         .then_ignore(just(':'))
-        .then(text::int(10).from_str().unwrapped())
+        .then(int10())
         .map(|(file, line): (&str, u64)| BreakpointIdentity::Line(file.trim().to_string(), line))
         .padded()
 }
 
 pub fn brkpt_number<'a>() -> impl chumsky::Parser<'a, &'a str, BreakpointIdentity, Err<'a>> {
-    text::int(10)
-        .from_str()
-        .unwrapped()
+    int10()
         .map(|number: u32| BreakpointIdentity::Number(number))
         .padded()
 }
@@ -342,9 +356,7 @@ impl Command {
                     .to(Command::SourceCode(source_code::Command::Asm)),
                 sub_op(SOURCE_COMMAND_FUNCTION_SUBCOMMAND)
                     .to(Command::SourceCode(source_code::Command::Function)),
-                text::int(10)
-                    .from_str()
-                    .unwrapped()
+                int10()
                     .map(|num| Command::SourceCode(source_code::Command::Range(num)))
                     .padded(),
             )))
@@ -399,9 +411,7 @@ impl Command {
             .ignore_then(choice((
                 sub_op2_w_arg(WATCH_REMOVE_SUBCOMMAND, WATCH_REMOVE_SUBCOMMAND_SHORT)
                     .ignore_then(choice((
-                        text::int(10)
-                            .from_str()
-                            .unwrapped()
+                        int10()
                             .map(|number: u32| WatchpointIdentity::Number(number))
                             .padded(),
                         watchpoint_at_address(),
@@ -459,9 +469,7 @@ impl Command {
                 sub_op(THREAD_COMMAND_CURRENT_SUBCOMMAND)
                     .to(Command::Thread(thread::Command::Current)),
                 sub_op_w_arg(THREAD_COMMAND_SWITCH_SUBCOMMAND)
-                    .ignore_then(text::int(10))
-                    .from_str()
-                    .unwrapped()
+                    .ignore_then(int10())
                     .map(|num| Command::Thread(thread::Command::Switch(num)))
                     .padded(),
             )))
@@ -471,7 +479,7 @@ impl Command {
             .ignore_then(choice((
                 sub_op(FRAME_COMMAND_INFO_SUBCOMMAND).to(Command::Frame(frame::Command::Info)),
                 sub_op(FRAME_COMMAND_SWITCH_SUBCOMMAND)
-                    .ignore_then(text::int(10).from_str().unwrapped())
+                    .ignore_then(int10())
                     .map(|num| Command::Frame(frame::Command::Switch(num)))
                     .padded(),
             )))
@@ -527,18 +535,14 @@ impl Command {
                         trigger::Command::AttachToDefined(trigger::TriggerEvent::Any),
                     ),
                     sub_op(TRIGGER_COMMAND_BRKPT_TRIGGER_SUBCOMMAND)
-                        .ignore_then(text::int(10))
-                        .from_str()
-                        .unwrapped()
+                        .ignore_then(int10())
                         .map(|num| {
                             trigger::Command::AttachToDefined(trigger::TriggerEvent::Breakpoint(
                                 num,
                             ))
                         }),
                     sub_op(TRIGGER_COMMAND_WP_TRIGGER_SUBCOMMAND)
-                        .ignore_then(text::int(10))
-                        .from_str()
-                        .unwrapped()
+                        .ignore_then(int10())
                         .map(|num| {
                             trigger::Command::AttachToDefined(trigger::TriggerEvent::Watchpoint(
                                 num,
